@@ -735,3 +735,4 @@ def finish(tier, rep: Report):
         if fl not in rep.flags:
             fails.append("coverage flag missing: " + fl)
     return fails
+
